@@ -732,6 +732,49 @@ fn complex_scaled_space(ctx: &Ctx, n: usize, nl: usize) {
     );
 }
 
+/// diagonal systems: x_i must be the correctly rounded quotient r_i / main_i, bit for bit (the elimination has nothing to do:
+/// beta_j = main_j - 0 * gamma_j, the back substitution subtracts 0 * x_(j+1)) - also for subnormal pivots and for quotients such
+/// as 49 / 49 that a reciprocal-and-multiply does not reproduce
+fn diagonal_bitwise_space(ctx: &Ctx) {
+    let ml = [49.0f64, 3.0, -7.0, 0.1, 3e-310, 5e-324, 1e300, -147.0, 2f64.powi(-1030)];
+    let rl = [49.0f64, 1.0, -147.0, 3e-310, 0.7, 2f64.powi(-1030) * 3.0];
+    let nm = ml.len() as u64;
+    let nr = rl.len() as u64;
+    for n in 1..=3usize {
+        let per = pow(nm, n as u32);
+        ctx.lattice(
+            &format!("Tridiagonal<f64> diagonal systems n={}: main over {{49,3,-7,0.1,3e-310,5e-324,1e300,-147,2^-1030}}, r over {{49,1,-147,3e-310,0.7,3*2^-1030}}, off-diagonals +0.0: x = r / main bit for bit", n),
+            per * pow(nr, n as u32),
+            |idx| format!("{}", idx),
+            |idx, acc| {
+                let mut md = vec![0usize; n];
+                let mut rd = vec![0usize; n];
+                digits_uniform(idx % per, nm, &mut md);
+                digits_uniform(idx / per, nr, &mut rd);
+                let main: Vec<f64> = md.iter().map(|&k| ml[k]).collect();
+                let r: Vec<f64> = rd.iter().map(|&k| rl[k]).collect();
+                if main.iter().any(|v| v.abs() < 1e-308) {
+                    acc.nontriv("subnormal pivot");
+                } else {
+                    acc.nontriv("diagonal system");
+                }
+                judge(acc, idx, || format!("diagonal main={:?} r={:?}", main, r), || {
+                    if (0..n).any(|i| !(r[i] / main[i]).is_finite()) {
+                        return Ok(()); // a solution component is not representable (0 * inf in the neighbouring rows is then legitimate)
+                    }
+                    let t = Tridiagonal::<f64>::with_vecs(vec![0.0; n - 1], main.clone(), vec![0.0; n - 1]);
+                    let x = t.solve(&Vector::create(r.clone()));
+                    for i in 0..n {
+                        let want = r[i] / main[i];
+                        ensure!(x[i].to_bits() == want.to_bits() || (want.is_nan() && x[i].is_nan()), "x[{}] = {:e} but r / main = {:e} / {:e} = {:e}", i, x[i], r[i], main[i], want);
+                    }
+                    Ok(())
+                });
+            },
+        );
+    }
+}
+
 fn main() {
     let ctx = Ctx::from_args("C05");
     ctx.level("model_checking");
@@ -760,6 +803,7 @@ fn main() {
     );
     f64_space(&ctx, ctx.pick(12, 40));
     complex_space(&ctx);
+    diagonal_bitwise_space(&ctx);
     complex_scaled_space(&ctx, 1, 5);
     complex_scaled_space(&ctx, 2, 5);
     complex_scaled_space(&ctx, 3, ctx.pick(3, 4));
@@ -806,6 +850,22 @@ fn main() {
                     let t = Tridiagonal::with_vecs(vec![z(1.0)], vec![z(2.0), z(2.0)], vec![z(1.0)]);
                     let x = t.solve(&Vector::create(vec![z(3.0), z(3.0)]));
                     ensure!((x[0].real - 1.0).abs() <= 1e-14 && (x[1].real - 1.0).abs() <= 1e-14 && x[0].imag == 0.0 && x[1].imag == 0.0, "x = {:?} but the solution is (1, 1)", x.vec);
+                    Ok(())
+                })),
+                ("extreme-complex tridiagonal (-2^1023 i) x = (2^1022)".to_string(), Box::new(|| {
+                    // a pivot in the top binade: the power of two that scales it to order one is 2^-1023, itself subnormal
+                    let t = Tridiagonal::with_vecs(vec![], vec![Cmplx::new(0.0, -(2f64.powi(1023)))], vec![]);
+                    let x = t.solve(&Vector::create(vec![Cmplx::new(2f64.powi(1022), 0.0)]));
+                    ensure!(x[0].real == 0.0 && x[0].imag == 0.5, "x = {:?} but the solution is 0.5 i", x.vec);
+                    Ok(())
+                })),
+                ("extreme-complex tridiagonal 2^1021 [[2,1],[1,3+i]] x = 2^1021 (3, 4+i)".to_string(), Box::new(|| {
+                    let p = 2f64.powi(1021);
+                    let z = |re: f64, im: f64| Cmplx::new(re * p, im * p);
+                    let t = Tridiagonal::with_vecs(vec![z(1.0, 0.0)], vec![z(2.0, 0.0), z(3.0, 1.0)], vec![z(1.0, 0.0)]);
+                    let x = t.solve(&Vector::create(vec![z(3.0, 0.0), z(4.0, 1.0)]));
+                    let e = (x[0].real - 1.0).abs() + x[0].imag.abs() + (x[1].real - 1.0).abs() + x[1].imag.abs();
+                    ensure!(e <= 1e-14, "x = {:?} but the solution is (1, 1)", x.vec);
                     Ok(())
                 })),
                 ("extreme-complex tridiagonal (1e120 i) x = (1e200 i)".to_string(), Box::new(|| {
